@@ -164,6 +164,17 @@ class _StandaloneEncoder(ABC, _Encoder[_T]):
         """
 
 
+def _read_exact(io: BinaryIO, size: int) -> bytes:
+    """
+    Reads exactly size bytes from the stream, raising ValueError if the
+    stream ends first.
+    """
+    data = io.read(size)
+    if len(data) != size:
+        raise ValueError("unexpected end of data")
+    return data
+
+
 class _ULEB128Encoder(_StandaloneEncoder[int]):
     def encode(
         self, value: int, byteorder: ByteOrder, ptr_size: int
@@ -173,7 +184,10 @@ class _ULEB128Encoder(_StandaloneEncoder[int]):
     def decode(
         self, io: BinaryIO, byteorder: ByteOrder, ptr_size: int
     ) -> Tuple[int, int]:
-        return leb128.u.decode_reader(io)
+        try:
+            return leb128.u.decode_reader(io)
+        except EOFError:
+            raise ValueError("truncated ULEB128 value") from None
 
     def validate(self, value: int, ptr_size: Optional[int]):
         if value < 0:
@@ -189,7 +203,10 @@ class _SLEB128Encoder(_StandaloneEncoder[int]):
     def decode(
         self, io: BinaryIO, byteorder: ByteOrder, ptr_size: int
     ) -> Tuple[int, int]:
-        return leb128.i.decode_reader(io)
+        try:
+            return leb128.i.decode_reader(io)
+        except EOFError:
+            raise ValueError("truncated SLEB128 value") from None
 
 
 class _IntEncoder(_StandaloneEncoder[int]):
@@ -205,7 +222,9 @@ class _IntEncoder(_StandaloneEncoder[int]):
     ) -> Tuple[int, int]:
         return (
             int.from_bytes(
-                io.read(self.byte_size), byteorder, signed=self.signed
+                _read_exact(io, self.byte_size),
+                byteorder,
+                signed=self.signed,
             ),
             self.byte_size,
         )
@@ -238,7 +257,9 @@ class _UIntPtrEncoder(_StandaloneEncoder[int]):
         self, io: BinaryIO, byteorder: ByteOrder, ptr_size: int
     ) -> Tuple[int, int]:
         return (
-            int.from_bytes(io.read(ptr_size), byteorder, signed=False),
+            int.from_bytes(
+                _read_exact(io, ptr_size), byteorder, signed=False
+            ),
             ptr_size,
         )
 
